@@ -232,7 +232,10 @@ def _parse_unauthorized(content: bytes) -> AuthenticationError:
 
     """
     payload: object = None
-    with contextlib.suppress(ValueError):
+    # RecursionError: a body that is nothing but nested brackets overflows the
+    # JSON scanner. It is not a ValueError, and this function's whole contract
+    # is that a foreign 401 body degrades instead of raising.
+    with contextlib.suppress(ValueError, RecursionError):
         payload = json.loads(content)
     if isinstance(payload, dict):
         raw_reason = str(payload.get("reason", ""))
